@@ -70,6 +70,30 @@ UnbackedFor(t, s) ==
 \* an index whose header declares far more entries than the file holds
 Unbacked(t) == UnbackedFor(t, Shape(t, 1))
 
+\* small counts with the lengths that make them consistent: zero parts, zero points, one of each,
+\* with and without the optional M block (the data behind them is whatever the template holds)
+SmallCombos(t) ==
+    LET c == 112
+        Combo(p, q, withM) ==
+            LET sz == IF withM THEN SizeWithM(t, IF HasParts(t) THEN p ELSE 0, q) ELSE SizeNoM(t, IF HasParts(t) THEN p ELSE 0, q)
+                w  == (sz + 4) \div 2
+            IN  (IF HasParts(t) THEN << Put("shp", c + 32, FALSE, p), Put("shp", c + 36, FALSE, q) >>
+                 ELSE << Put("shp", c + 32, FALSE, q) >>)
+                \o << Put("shp", 104, TRUE, w), Put("shp", 24, TRUE, 54 + w) >>
+    IN  IF IsPointType(t) THEN << >>
+        ELSE SetToSeq({ Combo(p, q, m) : p \in (IF HasParts(t) THEN {0, 1, 2} ELSE {0}), q \in {0, 1, 2}, m \in BOOLEAN })
+
+\* a record that really holds a LONG array of part offsets, each part declaring 1 024 points, and
+\* nothing after it: every per-part allocation made before the coordinates are read adds up
+ManyParts(t, P) ==
+    LET nq == P * 1024
+        sz == SizeWithM(t, P, nq)
+        w  == (sz + 4) \div 2
+        RECURSIVE Offs(_)
+        Offs(i) == IF i >= P THEN << >> ELSE LE32(i * 1024) \o Offs(i + 1)
+        content == EncBoxXY(ZeroBox) \o LE32(P) \o LE32(nq) \o Offs(0)
+    IN  EncodeHeader(54 + w, t, ZeroBox) \o BE32(1) \o BE32(w) \o LE32(t) \o content
+
 \* a record with really many vertices (more than any pre-allocation cap a reader may use), whose
 \* count is then inflated: the data stops after BigN real points
 BigN == 1500
@@ -80,7 +104,7 @@ BigShape(t) ==
          box |-> BoxOfPoints(t, Concat(parts))]
 BigTemplate(t) ==
     LET s == BigShape(t)
-    IN  [t |-> t, n |-> 1, big |-> TRUE,
+    IN  [t |-> t, n |-> 1, big |-> TRUE, raws |-> << >>,
          combos |-> UnbackedFor(t, s),
          shp |-> EncodeShp(t, ZeroBox, << s >>),
          shx |-> EncodeShx(t, ZeroBox, << s >>),
@@ -94,7 +118,8 @@ Template(t, n) ==
     LET shapes == [k \in 1..n |-> Shape(t, k)]
         ss == SetToSeq({}) \o [k \in 1..n |-> shapes[k]]
     IN  [t |-> t, n |-> n, big |-> FALSE,
-         combos |-> (IF n = 1 THEN Unbacked(t) ELSE << >>) \o UnbackedIndex,
+         combos |-> (IF n = 1 THEN Unbacked(t) \o SmallCombos(t) ELSE << >>) \o UnbackedIndex,
+         raws |-> IF n = 1 /\ HasParts(t) THEN << ManyParts(t, 3000), ManyParts(t, 1) >> ELSE << >>,
          shp |-> EncodeShp(t, ZeroBox, ss),
          shx |-> EncodeShx(t, ZeroBox, ss),
          fields |-> << Fld("shp", 24, TRUE, "header length"), Fld("shp", 32, FALSE, "header type"),
